@@ -310,6 +310,115 @@ def r02g(ctx):
         raise AnalysisError("R02g: no population of a wrapper index found")
 
 
+_MEMO = ("cache", "lru_cache", "cached_property")
+
+_FIXTURE_H = '''
+class T:
+    @property
+    @cache
+    def width(self):
+        return len(self.cells)
+    @lru_cache(maxsize=None)
+    def get_value(self, x):
+        return self.cells[x]
+    @property
+    def height(self):
+        if self._h is None:
+            self._h = len(self.rows)
+        return self._h
+    def get_row(self, y):
+        row = self._indexes["_tmap"][y] = self.find(y)
+        return row
+    def size(self):
+        return (self.width, self.height)
+@cache
+def compile_path(path: str):
+    return XPath(path)
+@cache
+def cell_text(cell):
+    return cell.text
+'''
+
+
+def _memo_sites(cls_funcs, module_funcs, read_only):
+    """(function node, site, text): cache decorators on methods (and on module functions whose parameters are not all declared str/int/bool),
+    and stores on `self` inside read-only methods other than into the `_indexes` wrapper caches."""
+    out = []
+
+    def memo_decorators(fn):
+        return [d for d in fn.decorator_list if any(isinstance(x, (ast.Name, ast.Attribute)) and (x.id if isinstance(x, ast.Name) else x.attr) in _MEMO for x in ast.walk(d))]
+
+    for fn in cls_funcs:
+        for d in memo_decorators(fn):
+            out.append((fn, d, f"`@{norm(d, 30)}` on {fn.name}"))
+        if not read_only(fn):
+            continue
+        for st in walk_no_nested(fn):
+            tg = st.targets if isinstance(st, ast.Assign) else [st.target] if isinstance(st, (ast.AugAssign, ast.AnnAssign)) else []
+            for t in tg:
+                for x in ast.walk(t):
+                    if isinstance(x, ast.Attribute) and isinstance(x.ctx, ast.Store) and isinstance(x.value, ast.Name) and x.value.id == "self":
+                        out.append((fn, st, f"`{norm(st, 50)}` keeps an answer on the object"))
+                    if isinstance(x, ast.Subscript) and isinstance(x.ctx, ast.Store) and isinstance(x.value, ast.Attribute) and isinstance(x.value.value, ast.Name) \
+                            and x.value.value.id == "self" and x.value.attr != "_indexes":
+                        out.append((fn, st, f"`{norm(st, 50)}` keeps an answer on the object"))
+    for fn in module_funcs:
+        for d in memo_decorators(fn):
+            ps = fn.args.posonlyargs + fn.args.args + fn.args.kwonlyargs
+            plain = all(a.annotation is not None and ast.unparse(a.annotation).replace(" ", "") in ("str", "int", "bool", "str|None", "int|None") for a in ps)
+            if not plain or fn.args.vararg or fn.args.kwarg:
+                out.append((fn, d, f"`@{norm(d, 30)}` on {fn.name}, whose arguments are not plain immutable values"))
+    return out
+
+
+def r02h(ctx):
+    """No answer is remembered outside the caches the protocol governs.
+
+    "No read may be served from … cached … objects that an earlier operation has made obsolete."  The position maps and the `_indexes`
+    wrapper caches are reset by the vault protocol (R02a–g).  Any *other* memo has no invalidation at all: a functools cache on a method
+    keys on `self` and answers from the first call for ever; an attribute written by a getter does the same.  Today the read-only methods
+    of Table, Row, Cell, Column and everything they inherit from store nothing on `self` but `_indexes[…]` entries, and the only cached
+    functions of the package map a str to a compiled XPath or take no argument.  Rule (expected count 0; fixture with four violating and
+    three clean functions evaluated on every run): no cache decorator on a method of those classes, none on a module function whose
+    parameters are not all declared str/int/bool, and no store on `self` other than `_indexes[…]` in a getter or read-only method.
+    """
+    from .c15 import READ_ONLY
+    repo = ctx.repo
+    ctx.rule("R02h", "no answer of a table class is memoised outside the governed caches (no cache decorator, no store on self in a read-only method except _indexes[…])", floor=300)
+    tree = ast.parse(_FIXTURE_H)
+    cf = [n for n in ast.walk(tree) if isinstance(n, ast.FunctionDef) and any(a.arg == "self" for a in n.args.args)]
+    mf = [n for n in tree.body if isinstance(n, ast.FunctionDef)]
+    got = sorted({fn.name for fn, _, _ in _memo_sites(cf, mf, lambda fn: bool(READ_ONLY.match(fn.name)) or any(isinstance(d, ast.Name) and d.id == "property" for d in fn.decorator_list))})
+    if got != ["cell_text", "get_value", "height", "width"]:
+        raise AnalysisError(f"R02h fixture: memo detector broken: {got}")
+    classes = []
+    for nm in ("Table", "Row", "Cell", "Column", "RowGroup"):
+        for k in repo.cls(nm).mro:
+            if k not in classes:
+                classes.append(k)
+    by_node = {}
+    for c in classes:
+        for name, fs in c.methods.items():
+            for f in fs:
+                if f.kind in ("setter", "deleter", "nested"):
+                    continue
+                by_node[id(f.node)] = f
+    ro = {id(f.node) for f in by_node.values() if f.kind == "getter" or READ_ONLY.match(f.name)}
+    modfuncs = [f for f in repo.all_funcs() if f.cls is None and f.kind != "nested"]
+    for f in modfuncs:
+        by_node[id(f.node)] = f
+    sites = _memo_sites([f.node for f in by_node.values() if f.cls is not None], [f.node for f in modfuncs], lambda fn: id(fn) in ro)
+    bad: dict[int, list] = {}
+    for fn, n_, why in sites:
+        bad.setdefault(id(fn), []).append((n_, why))
+    for k, f in by_node.items():
+        b = bad.get(k, [])
+        ctx.instance("R02h", f"{f.file}:{f.ident}", "not memoised", ok=not b, nontrivial=bool(b), line=f.node.lineno)
+        for n_, why in b[:2]:
+            ctx.report("R02h", f, n_, why.split("`")[1] if "`" in why else why,
+                       f"{f.ident}: {why}; nothing invalidates it when the table is edited, so later reads are served the first answer instead of what the XML says")
+
+
 def run(ctx):
     tom = run_tom(ctx.repo)
     r02ab(ctx, tom)
@@ -318,6 +427,7 @@ def run(ctx):
     r02e(ctx)
     r02f(ctx)
     r02g(ctx)
+    r02h(ctx)
 
 
 from ..selftest import Seed, unparse_seed  # noqa: E402
@@ -326,6 +436,14 @@ _T = "src/odfdo/table.py"
 _R = "src/odfdo/row.py"
 _EC = "src/odfdo/element_cached.py"
 SEEDS = [
+    Seed("Table.height remembers its answer on the object", "fault", _T,
+         "        try:\n            height = self._tmap[-1] + 1\n        except Exception:\n            height = 0\n        return height",
+         "        if getattr(self, \"_height\", None) is None:\n            try:\n                self._height = self._tmap[-1] + 1\n            except Exception:\n                self._height = 0\n        return self._height", "R02h"),
+    Seed("Row.is_empty behind an lru_cache", "fault", _R, "    def is_empty(self, aggressive: bool = False) -> bool:", "    @lru_cache(maxsize=128)\n    def is_empty(self, aggressive: bool = False) -> bool:", "R02h",
+         edits=[(_R, "from __future__ import annotations\n", "from __future__ import annotations\n\nfrom functools import lru_cache\n")]),
+    Seed("Table.height computed through a local", "neutral", _T,
+         "        try:\n            height = self._tmap[-1] + 1\n        except Exception:\n            height = 0\n        return height",
+         "        tmap = self._tmap\n        try:\n            height = tmap[-1] + 1\n        except Exception:\n            height = 0\n        return height"),
     Seed("set_row caches the written row under the index computed before the vault call", "fault", _T,
          "            row_back = set_item_in_vault(  # type: ignore\n                y, row, self, _xpath_row_idx, \"_tmap\", clone=clone\n            )\n",
          "            idx = find_odf_idx(self._tmap, y)\n            row_back = set_item_in_vault(  # type: ignore\n                y, row, self, _xpath_row_idx, \"_tmap\", clone=clone\n            )\n            self._indexes[\"_tmap\"][idx] = row_back\n", "R02g"),
